@@ -7,22 +7,32 @@ from . import bindings, misc_rules, protocol, render
 def run(rep: Report, repo: Repo, tier: str) -> None:
     rep.unit("src/cminx/aggregator.py", "src/cminx/documentation_types.py")
     rep.assume("keywords are upper case as CMake requires; the scan loop is summarised as 'last matching position wins'")
-    bindings.rule_test_bindings(rep, repo, "C11-R1", "C11-R3")
-    misc_rules.rule_siblings_agree(rep, repo, "C11-R2")
-    render.rule_test_rendering(rep, repo, "C11-R4")
+    with rep.isolated():
+        bindings.rule_test_bindings(rep, repo, "C11-R1", "C11-R3")
+    with rep.isolated():
+        misc_rules.rule_siblings_agree(rep, repo, "C11-R2")
+    with rep.isolated():
+        render.rule_test_rendering(rep, repo, "C11-R4")
     # sections are entries of their own, in order: protocol rows of the test kinds
     from ..listener import model
     lm = model(repo)
     rows = [r for k in ("ct_add_test", "ct_add_section", "add_test") for ev in ("DOC", "UNDOC") for r in lm.rows(ev, k)
             if ev == "DOC" or protocol.default_flags(r)]   # documented commands: under every setting
-    protocol.check_rows(rep, "C11-R5", rows, ["entries", "awaiting"], "test entry protocol")
-    rep.rule("C11-R5", "every ct_add_test / ct_add_section / add_test event appends exactly one entry of its own kind (sections are "
-                       "entries of their own, in source order)")
+    with rep.isolated():
+        protocol.check_rows(rep, "C11-R5", rows, ["entries", "awaiting"], "test entry protocol")
+    with rep.isolated():
+        rep.rule("C11-R5", "every ct_add_test / ct_add_section / add_test event appends exactly one entry of its own kind (sections are "
+                           "entries of their own, in source order)")
     rep.floor("C11-R5", 8, "test protocol rows")
     # ... and every entry of the list is rendered, once, in list order
-    misc_rules.rule_document_order(rep, repo, "C11-R6")
+    with rep.isolated():
+        misc_rules.rule_document_order(rep, repo, "C11-R6")
     # "shows all its other arguments": the signature reaches the text as written (no whitespace normalisation on the way)
     from . import writer_rules
-    writer_rules.rule_values_verbatim(rep, repo, "C11-R7")
+    with rep.isolated():
+        writer_rules.rule_values_verbatim(rep, repo, "C11-R7")
     # the test commands are recognised however their name is capitalised (CMake command names are case-insensitive)
-    misc_rules.rule_case_folding(rep, repo, "C11-R8")
+    with rep.isolated():
+        misc_rules.rule_case_folding(rep, repo, "C11-R8")
+    with rep.isolated():
+        protocol.rule_accepted_arities(rep, repo, "C11-R9", kinds=["ct_add_test", "ct_add_section", "add_test"])
